@@ -173,6 +173,14 @@ def check(case):
             may.add(pos)
         if cats & set(F):
             pending_any = True
+    if set(F) == {"trim"}:
+        # with trim alone a failing `assert` aborts its test: later observations are lost and the model
+        # (which assumes that every scripted comparison is observed) does not apply to that test
+        aborting = {ti for ti, t in enumerate(prog["tests"])
+                    if any(prog["sites"][i].get("style", "assert") == "assert" for i in t)}
+        for pos, i in enumerate(order):
+            if any(i in prog["tests"][ti] for ti in aborting):
+                may.add(pos)
     cm = no_black() if fmt == "noblack" else contextlib.nullcontext()
     before = text.encode("utf-8")
     with cm:
